@@ -14,6 +14,7 @@ package main
 import (
 	"context"
 	"encoding/json"
+	"errors"
 	"fmt"
 	"strings"
 
@@ -75,8 +76,14 @@ func polyQuery(p *pcase, via string) string {
 	q := p.queryText() // query Q(…) { f(args) }
 	i := strings.Index(q, " { f")
 	head, field := q[:i], strings.TrimSuffix(strings.TrimPrefix(q[i:], " { "), " }")
-	if via == "union-fragment" {
+	switch via {
+	case "union-fragment":
 		return head + " { things { ... on Node { " + field + " } } }"
+	case "concrete-fragment":
+		// validation sees each object's OWN definition here
+		return head + " { nodes { ... on A { " + field + " } ... on B { " + field + " } } }"
+	case "union-concrete":
+		return head + " { things { ... on B { " + field + " } ... on A { " + field + " } } }"
 	}
 	return head + " { nodes { " + field + " } }"
 }
@@ -158,7 +165,7 @@ func runRealPoly(c *Case) (o PolyObserved, query, variables string, err error) {
 		AdditionalTypes: extra,
 	})
 	if err != nil {
-		return o, query, variables, fmt.Errorf("schema rejected: %v", err)
+		return o, query, variables, fmt.Errorf("%w: %v", errPolySchema, err)
 	}
 	vars := map[string]interface{}{}
 	allJSON := true
@@ -212,7 +219,7 @@ func runRealPoly(c *Case) (o PolyObserved, query, variables string, err error) {
 		o.Class = "ran"
 		// which list positions hold which type
 		pos := [2][]int{{0, 2}, {1, 3}}
-		if c.Via == "union-fragment" {
+		if c.Via == "union-fragment" || c.Via == "union-concrete" {
 			pos = [2][]int{{1, 3}, {0, 2}}
 		}
 		for i := range seen {
@@ -261,6 +268,12 @@ func (h *harness) judgePoly(p *prepared, replies []string) []failure {
 		c := &p.cases[i]
 		o, query, variables, err := runRealPoly(c)
 		c.Query, c.Variables = query, variables
+		if err != nil && errors.Is(err, errPolySchema) && polyVariantOf(c) {
+			// an implementer whose argument type is not the interface's, refused by schema.New: the
+			// specified behaviour; nothing can run
+			h.run.Count("poly-variant: refused by schema.New (case discarded)")
+			continue
+		}
 		if err != nil {
 			fs = append(fs, failure{"correspondence", "harness cannot run the case: " + err.Error(), "", true, i})
 			continue
@@ -334,8 +347,16 @@ func (h *harness) judgePoly(p *prepared, replies []string) []failure {
 		tie := ""
 		if replies != nil {
 			i1, _, okI := splitRes1(replies[3*i])
-			_, a3, okA := splitRes1(replies[3*i+1])
-			_, b3, okB := splitRes1(replies[3*i+2])
+			a1, a3, okA := splitRes1(replies[3*i+1])
+			b1, b3, okB := splitRes1(replies[3*i+2])
+			if (c.Via == "concrete-fragment" || c.Via == "union-concrete") && okI && okA && okB {
+				// the field node sits in `... on A` and `... on B`: each is validated against that
+				// object's own definitions, the document is valid when both are
+				i1 = "valid"
+				if a1 == "invalid" || b1 == "invalid" {
+					i1 = "invalid"
+				}
+			}
 			switch {
 			case !okI || !okA || !okB:
 				tie = "unexpected model replies"
